@@ -196,7 +196,9 @@ static void schedule(void)
                 uint64_t mw = ~0ull;
                 for (int i = 0; i < NT; ++i)
                     if (T[i].used && !T[i].finished && T[i].blk == BLK_SLEEP && NOW < T[i].wake && T[i].wake < mw) mw = T[i].wake;
+                T[me].consec = 0;
                 if (mw != ~0ull) { NOW = mw; continue; }
+                NOW += 1000000ull; // nobody else will ever move the clock: a busy-wait on the clock sees time pass (1 ms per burst)
             }
         }
         if (me_en && !starving) cand[n++] = me;
@@ -675,9 +677,11 @@ static double now_real(void)
     return tv.tv_sec + tv.tv_usec * 1e-6;
 }
 
+static int g_delay_mode; // 0: preemption bounding (switches at blocking points are free); 1: delay bounding (every non-default choice costs 1)
 static int pt_cost(const struct point* p, int alt)
 {
     if (alt == 0) return 0;
+    if (g_delay_mode) return 1;
     if (alt >= p->nE) return 1;      // time skip
     return p->cur_in_E ? 1 : 0;      // preemption of a thread that could have continued
 }
@@ -839,6 +843,7 @@ int vs_main(int argc, char** argv)
         else if (!strcmp(a, "--max-steps")) g_max_steps = (unsigned)atoi(NEXT);
         else if (!strcmp(a, "--tick-us")) g_tick_ns = (uint64_t)(atof(NEXT) * 1000);
         else if (!strcmp(a, "--no-timeskip")) g_timeskip = 0;
+        else if (!strcmp(a, "--delay-bounding")) g_delay_mode = 1;
         else if (!strcmp(a, "--skip-advances-clock")) g_skip_advances = 1;
         else if (!strcmp(a, "--viol-cap")) g_viol_cap = atoi(NEXT);
         else if (!strcmp(a, "--list")) list = 1;
@@ -869,12 +874,14 @@ int vs_main(int argc, char** argv)
         uint8_t ch[1020];
         int n = parse_choices(replay, ch);
         g_trace = 1;
+        fflush(stdout);
         run_one(&slots[0], ch, (uint32_t)n);
         struct result* r = &slots[0];
         fwrite(r->notes, 1, r->notes_len, stdout);
         printf("RESULT status=%s steps=%u choice_points=%u outcome=%016llx clause=%s\n  %s\n", st_name[r->status & 7], r->steps, r->npoints, (unsigned long long)r->outcome, r->clause, r->msg);
         // determinism: a second run of the same choice list must give identical observations
         g_trace = 0;
+        fflush(stdout);
         run_one(&slots[1], ch, (uint32_t)n);
         int same = slots[1].status == r->status && slots[1].outcome == r->outcome && slots[1].npoints == r->npoints && slots[1].steps == r->steps;
         printf("REPLAY-DETERMINISM %s\n", same ? "identical" : "DIVERGED");
@@ -904,7 +911,7 @@ int vs_main(int argc, char** argv)
     FILE* f = out_path ? fopen(out_path, "w") : stdout;
     if (!f) { perror("out"); return 2; }
     int exhaustive = !S->capped && !S->stop && S->pending == 0 && !bad && !S->truncated;
-    fprintf(f, "{\"scenario\":\"%s\",\"bound\":%d,\"jobs\":%d,\"executions\":%llu,\"steps\":%llu,\"choice_points\":%llu,\"max_choice_points\":%llu,", SC->name, g_bound, jobs, S->executions, S->steps, S->points, S->maxpoints);
+    fprintf(f, "{\"scenario\":\"%s\",\"cost_model\":\"%s\",\"bound\":%d,\"jobs\":%d,\"executions\":%llu,\"steps\":%llu,\"choice_points\":%llu,\"max_choice_points\":%llu,", SC->name, g_delay_mode ? "delay" : "preemption", g_bound, jobs, S->executions, S->steps, S->points, S->maxpoints);
     fprintf(f, "\"distinct_outcomes\":%d,\"outcome_overflow\":%llu,\"edges_covered\":%zu,\"exhaustive\":%s,\"worker_failures\":%d,\"unconfirmed\":%d,\"wall_s\":%.3f,", S->nout, S->out_overflow, edges, exhaustive ? "true" : "false", bad, S->unconfirmed, wall);
     fprintf(f, "\"params\":{");
     for (int i = 0; i < g_nparams; ++i) { fprintf(f, "%s", i ? "," : ""); json_str(f, g_params[i][0]); fputc(':', f); json_str(f, g_params[i][1]); }
